@@ -263,6 +263,19 @@ def smooth_scipy_case(c):
     return dict(status="violated" if fails else "ok", fails=fails)
 
 
+def backend_seq_case(c):
+    """Two euler runs with inputs in ONE process on one backend (different parameter values and input samples): each against the spec —
+    what the first compilation leaves behind (index bookkeeping, generated names) must not shift the step counter of the second."""
+    for j, (model, arr) in enumerate(c["items"]):
+        sub = dict(c, kind="inputs_backend", model=model, inputs={c["target"]: arr}, run_kw=dict(clear=True))
+        r = dispatch(sub)
+        if r.get("status") == "violated":
+            for f in r["fails"]:
+                f["clause"] = f"run #{j} of two {c['solver']} runs with inputs in one process: " + str(f.get("clause"))
+            return r
+    return dict(status="ok", fails=[])
+
+
 def diffrax_seq_case(c):
     """Two runs in ONE process with solver='diffrax' (JAX) that differ only in parameter values / input samples: each against the spec."""
     fails = []
@@ -338,6 +351,8 @@ def dispatch(c):
         return interp_field_case(c)
     if k == "diffrax_seq":
         return diffrax_seq_case(c)
+    if k == "inputs_backend_seq":
+        return backend_seq_case(c)
     if k == "smooth_scipy":
         return smooth_scipy_case(c)
     if k == "ring":
@@ -447,6 +462,10 @@ def families(tier, seed):
         nd["over"]["op/tau"] = nd["over"].get("op/tau", 2.0) * 1.7
     out.append(dict(tag="diffrax-two-runs/jax", features=dict(backend="jax", solver="diffrax"), kind="diffrax_seq", target="p1/op/u", T=1.0, dt=0.05,
                     dts=0.1, items=[(three, smooth), (three_b, [-x for x in smooth])]))
+    rough = [round(float(x), 4) for x in np.random.default_rng(seed + 7).uniform(-1, 1, size=20)]
+    for b in ("torch", "jax", "fortran"):
+        out.append(dict(tag=f"two-runs-with-inputs/{b}/euler", features=dict(backend=b, solver="euler", second_run=True), kind="inputs_backend_seq", target="p1/op/u",
+                        T=1.0, dt=0.05, dts=None, solver="euler", backend=b, items=[(three, rough), (three_b, [-x for x in rough[::-1]])]))
     for b in ("torch", "jax", "fortran"):
         for form in ("scalar", "connectivity"):
             for order in ((0, 1) if b != "fortran" else (0,)):
